@@ -49,7 +49,9 @@ pub fn show_rows(r: &RowsOut, n: usize) -> String { format!("{} rows: {}", r.row
 #[derive(Clone, Copy, PartialEq, Debug)]
 pub enum Shape { Plain, Distinct, Aggregate, Join, JoinAggregate }
 
-pub struct BaseCfg { pub shapes: &'static [Shape], pub allow_limit: bool, pub allow_having: bool, pub agg_distinct: bool, pub order_insensitive_only: bool, pub exact_data: bool, pub min_lines: usize, pub max_lines: usize, pub not_null_column: bool }
+pub struct BaseCfg { pub shapes: &'static [Shape], pub allow_limit: bool, pub allow_having: bool, pub agg_distinct: bool, pub order_insensitive_only: bool, pub exact_data: bool, pub min_lines: usize, pub max_lines: usize, pub not_null_column: bool,
+    /// one case in `big_rate` is big: `big_lines`/2 .. `big_lines` lines over up to 300 keys (0 = never)
+    pub big_rate: u32, pub big_lines: usize }
 
 /// generates table(s), lines and a statement of one of the requested shapes; returns the case fields
 pub fn gen_base(rng: &mut Rng, cfg: &BaseCfg) -> (J, StdTable, Sel, Shape) {
@@ -63,8 +65,10 @@ pub fn gen_base(rng: &mut Rng, cfg: &BaseCfg) -> (J, StdTable, Sel, Shape) {
         // ... and sometimes another column has a DEFAULT: a line failing NOT NULL is still no row
         if rng.chance(1, 2) { for c in t.spec.cols.iter_mut() { if c.name == "k" { c.modifier = Modifier::Default(E::Str("dflt".into())); } } }
     }
-    let dc = DataCfg::random(rng, t.schema.cols.len(), false);
-    let n = cfg.min_lines + rng.below(cfg.max_lines - cfg.min_lines + 1);
+    let mut dc = DataCfg::random(rng, t.schema.cols.len(), false);
+    let mut n = cfg.min_lines + rng.below(cfg.max_lines - cfg.min_lines + 1);
+    // size thresholds: many lines, many groups / distinct keys, many values per group
+    if cfg.big_rate > 0 && rng.chance(1, cfg.big_rate) { n = cfg.big_lines / 2 + rng.below(cfg.big_lines / 2 + 1); dc.keys = *rng.pick(&[1usize, 3, 40, 300]); }
     let lines = std_lines(rng, &t, n, &dc);
     let shape = *rng.pick(cfg.shapes);
     let ecfg = ExprCfg { ill_typed: 0, max_depth: 2, ..Default::default() };
